@@ -139,6 +139,17 @@ func classGet(c *desync.Chunk, err error, want []byte) string {
 	return "error"
 }
 
+func listAll(root string) []string {
+	var out []string
+	filepath.Walk(root, func(p string, info os.FileInfo, err error) error {
+		if err == nil && !info.IsDir() {
+			out = append(out, p)
+		}
+		return nil
+	})
+	return out
+}
+
 func main() {
 	seed := flag.Int64("seed", 1, "seed")
 	n := flag.Int("n", 100, "histories")
@@ -304,6 +315,36 @@ func main() {
 				obj(bytes.Equal(b, datas[i]), "uncompressed chunk file does not hold the raw bytes")
 			}
 		}
+	}
+	// ---- a chunk server of one format never serves (or accepts) the other format's names: an HTTP client configured for the
+	// other format must not see the chunk, and a PUT from it must not create a file
+	for _, srvComp := range []bool{true, false} {
+		d := filepath.Join(*dir, "xfmt")
+		os.RemoveAll(d)
+		os.MkdirAll(d, 0755)
+		ls, _ := desync.NewLocalStore(d, desync.StoreOptions{Uncompressed: !srvComp})
+		ch := desync.NewChunk(bytes.Repeat([]byte("cross format "), 500))
+		ls.StoreChunk(ch)
+		var conv desync.Converters
+		if srvComp {
+			conv = desync.Converters{desync.Compressor{}}
+		}
+		hs := httptest.NewServer(desync.NewHTTPHandler(ls, true, true, conv, ""))
+		hu, _ := url.Parse(hs.URL + "/")
+		for _, verify := range []bool{true, false} {
+			cl, err := desync.NewRemoteHTTPStore(hu, desync.StoreOptions{Uncompressed: srvComp, SkipVerify: !verify}) // the OTHER format
+			if err != nil {
+				panic(err)
+			}
+			has, herr := cl.HasChunk(ch.ID())
+			obj(!(herr == nil && has), fmt.Sprintf("a client configured for the other format sees a chunk of a server serving compressed=%v", srvComp))
+			c, gerr := cl.GetChunk(ch.ID())
+			obj(gerr != nil || c == nil, fmt.Sprintf("a client configured for the other format was served a chunk by a server serving compressed=%v", srvComp))
+			before := listAll(d)
+			cl.StoreChunk(desync.NewChunk([]byte("uploaded by the other format's client")))
+			obj(fmt.Sprint(before) == fmt.Sprint(listAll(d)), fmt.Sprintf("a PUT under the other format's name created a file in a store serving compressed=%v", srvComp))
+		}
+		hs.Close()
 	}
 	// ---- cross-implementation: written by one zstd, read by the other; single frame
 	runJSON := func(bin string, args ...string) map[string]interface{} {
